@@ -3,22 +3,23 @@
 // lines:  classmap <wide 0|1> <hex bytes> <cid.x,cid.x,…>     Silf::readClassMap on the bytes (exact-size buffer), then for every probe
 //            with cid < numClasses (what the code loader guarantees) or cid > numClasses: getClassGlyph(cid, x) and findClassIndex(cid, x)
 //            -> fault | E<code> | ok <numClasses>,<numLinear> O:<digest offsets> D:<digest data> G:<v,…> F:<v,…>
-//         faceinfo                          -> <numGlyphs> <numAttrs> <hasBoxes 0|1> of the base font's glyph cache
-//         silf <version> <numGlyphs> <numAttrs> <hasBoxes> <hex bytes>   (the three numbers must be what faceinfo answers)  Silf::readGraphite on the bytes (exact-size buffer) as one sub-table of a Silf table of that version
-//            -> fault | E<code> | P<i> E<code> (pass i: range or layout error) | P<i> later (refused further on in pass i)
+//         faceinfo                          -> <numGlyphs> <numAttrs> <hasBoxes 0|1> <numFeatures> of the base font
+//         silf <version> <numGlyphs> <numAttrs> <hasBoxes> <numFeatures> <hex bytes>   (the four numbers must be what faceinfo answers)  Silf::readGraphite on the bytes (exact-size buffer) as one sub-table of a Silf table of that version
+//            -> fault | E<code> (the loader's error code, whichever part of the sub-table or of a pass gave it; E0: a rule record refused)
 //             | ok <numPasses>,<sPass>,<pPass>,<jPass>,<bPass>,<flags>,<aPseudo>,<aBreak>,<aBidi>,<aMirror>,<aPassBits>,<numJusts>,<aLig>,<aUser>,
 //                  <iMaxComp>,<dir>,<aCollision>,<gEndLine>,<numPseudo> PS:<digest pseudos> C:<numClasses>,<numLinear> P:<digest numRules,numStates per pass>
-//         silftable <numGlyphs> <numAttrs> <hasBoxes> <hex bytes>        Face::readGraphite with the bytes (exact-size buffer) as the Silf table of the base font
+//         silftable <numGlyphs> <numAttrs> <hasBoxes> <numFeatures> <hex bytes>        Face::readGraphite with the bytes (exact-size buffer) as the Silf table of the base font
 //            -> fault | notable | noglyphs | nofeat | E<code> | P<i> … | ok <numSilf> | <sub-table> … | nopasses <numSilf> | …
 //         codeinfo                          -> <numClasses> <numGlyphAttrs> <numFeatures> <numUser>: the limits the code loader takes from the base font
 //         code <constraint 0|1> <passtype> <pre_context> <rule_length> <classes> <gattrs> <feats> <user> <hex bytecode>
 //            Machine::Code's loading constructor on exactly these bytes (own buffers); the four limits must be codeinfo's
 //            -> fault | S<status> | empty | ok ic=<instructions> ds=<data bytes> mr=<max_ref> mod=<0|1> del=<0|1> I:<opcodes incl. inserted TEMP_COPYs and the final RET_ZERO> D:<digest of data>
 //         collok <passtype>                 -> 0|1   (may a pass of this type carry collision flags in this font?)
-//         pass <subtable_base> <passtype> <collok> <hex bytes>       (collok must be what `collok <passtype>` answers)
-//            -> fault | E<code> (one of the layout errors) | ranges (E_BADRANGE) | states E<code> (E_BADSTATE, E_BADRULEMAPPING)
-//             | rulemap (E_BADRULENUM) | later (refused in the code loader or the rule records)
-//             | ok <fields> R:<digest of m_cols> S:<digest of start states, transitions, rule ranges> M:<rule map entries>
+//         pass <subtable_base> <passtype> <collok> <classes> <gattrs> <feats> <user> <hex bytes>
+//            (collok must be what `collok <passtype>` answers, the four limits what `codeinfo` answers)
+//            -> fault | E<code> (the loader's error code; E0 for the refusals of readRules that set none)
+//             | ok <fields> R:<digest of m_cols> S:<digest of start states, transitions, rule ranges>
+//                  U:<digest of, per rule: sort key, pre-context, action instructions, action data bytes, constraint instructions, constraint data bytes>
 //               with <fields> = <maxLoop>,<numRules>,<numStates>,<numTransition>,<numSuccess>,<numColumns>,<numGlyphs>,<minPre>,<maxPre>,<colThreshold>,<reverse>,<collRuns>,<kernColls>
 #include <cstdio>
 #define private public
@@ -75,25 +76,19 @@ static std::string describe(const Silf *sf) {
     return out;
 }
 
-// a refusal: the loader's error code, with the pass number where the pass loader gave it
+// a refusal: the loader's error code (0 for the refusals of readRules that set none).  The pass number of the error context does
+// not survive Pass::readPass (error_context() answers m_error), so it is not reported.
 static std::string refusal(const Face *face) {
     char buf[64];
-    int c = face->m_error;
-    unsigned pass = face->m_errcntxt >> 16;
     if (face->m_error == 0xFFFFFFFFu) return "E4294967295";       // ERROROFFSET used as an error code by readClassMap
-    if (c <= E_BADPASSEND || c == E_BADACOLLISION || c == E_BADSILFVERSION) {
-        if (c == E_BADPASSSTART || c == E_BADPASSEND) snprintf(buf, sizeof buf, "P%u E%d", pass, c);
-        else snprintf(buf, sizeof buf, "E%d", c);
-    }
-    else if (layout_code(c)) snprintf(buf, sizeof buf, "P%u E%d", pass, c);
-    else snprintf(buf, sizeof buf, "P%u later", pass);
+    snprintf(buf, sizeof buf, "E%u", (unsigned)face->m_error);
     return buf;
 }
 
 // the glyph-cache numbers a line carries for the model must be the base font's
 static bool face_matches(const Face *face, const std::vector<std::string> &w, size_t at) {
     return strtoul(w[at].c_str(), 0, 10) == face->glyphs().numGlyphs() && strtoul(w[at + 1].c_str(), 0, 10) == face->glyphs().numAttrs()
-        && (strtoul(w[at + 2].c_str(), 0, 10) != 0) == face->glyphs().hasBoxes();
+        && (strtoul(w[at + 2].c_str(), 0, 10) != 0) == face->glyphs().hasBoxes() && strtoul(w[at + 3].c_str(), 0, 10) == face->numFeatures();
 }
 
 struct TableCtx { FileFace *ff; const uint8_t *silf; size_t silf_len; };
@@ -185,11 +180,11 @@ int main(int argc, char **argv) {
             }
             if (g_faults) out = "fault";
         } else if (w.size() == 1 && w[0] == "faceinfo") {
-            snprintf(buf, sizeof buf, "%u %u %u", (unsigned)face->glyphs().numGlyphs(), (unsigned)face->glyphs().numAttrs(), face->glyphs().hasBoxes() ? 1u : 0u);
+            snprintf(buf, sizeof buf, "%u %u %u %u", (unsigned)face->glyphs().numGlyphs(), (unsigned)face->glyphs().numAttrs(), face->glyphs().hasBoxes() ? 1u : 0u, (unsigned)face->numFeatures());
             out = buf;
-        } else if ((w.size() == 6 && w[0] == "silf" && !face_matches(face, w, 2)) || (w.size() == 5 && w[0] == "silftable" && !face_matches(face, w, 1))) {
+        } else if ((w.size() == 7 && w[0] == "silf" && !face_matches(face, w, 2)) || (w.size() == 6 && w[0] == "silftable" && !face_matches(face, w, 1))) {
             out = "bad-op";                  // the line was made for another base font
-        } else if (w.size() == 6 && w[0] == "silf" && parse_hex(w[5], b)) {
+        } else if (w.size() == 7 && w[0] == "silf" && parse_hex(w[6], b)) {
             // Silf::readGraphite on exactly these bytes, with the glyph cache of the base font
             unsigned long version = strtoul(w[1].c_str(), 0, 10);
             Silf *sf = new Silf();
@@ -200,8 +195,10 @@ int main(int argc, char **argv) {
             else if (!ok) out = refusal(face);
             else out = "ok " + describe(sf);
             delete sf;
-        } else if (w.size() == 5 && w[0] == "silftable" && parse_hex(w[4], b)) {
-            // Face::readGraphite on exactly these bytes as the Silf table; every other table comes from the base font's file
+        } else if (w.size() == 6 && w[0] == "silftable" && parse_hex(w[5], b)) {
+            // Face::readGraphite on exactly these bytes as the Silf table; every other table comes from the base font's file.
+            // Not the subject here: tables Face::Table does not hand out (shorter than 4 bytes) or has to decompress first (C14)
+            if (b.size() >= 8 && ((b[0] << 24 | b[1] << 16 | b[2] << 8 | b[3]) >= 0x00050000u) && (b[4] >> 3) != 0) { puts("compressed"); fflush(stdout); continue; }
             Exact e(b);
             FileFace *ff = new FileFace(argv[1]);
             TableCtx ctx = { ff, e.p, b.size() };
@@ -215,8 +212,11 @@ int main(int argc, char **argv) {
                 else {
                     f->m_error = 0; f->m_errcntxt = 0;
                     bool ok = f->readGraphite(silf);
+                    // a refusal without an error code (E0) leaves sub-tables unread: then numPasses of the last one is still 0 and no passes exist
+                    bool all_loaded = true;
+                    for (unsigned k = 0; k < f->m_numSilf; ++k) if (f->m_silfs[k].m_numPasses && !f->m_silfs[k].m_passes) all_loaded = false;
                     if (g_faults) out = "fault";
-                    else if (!ok && f->m_error) out = refusal(f);
+                    else if (!ok && (f->m_error || !all_loaded)) out = refusal(f);
                     else {
                         snprintf(buf, sizeof buf, "%s %u", ok ? "ok" : "nopasses", (unsigned)f->m_numSilf);
                         out = buf;
@@ -231,24 +231,23 @@ int main(int argc, char **argv) {
             int pt = atoi(w[1].c_str());
             bool ok = pt >= PASS_TYPE_POSITIONING && silf->aCollision() && face->glyphs().hasBoxes() && (silf->flags() & 0x20);
             out = ok ? "1" : "0";
-        } else if (w.size() == 5 && w[0] == "pass" && parse_hex(w[4], b)) {
+        } else if (w.size() == 9 && w[0] == "pass" && parse_hex(w[8], b)) {
             size_t base = strtoul(w[1].c_str(), 0, 10);
             int pt = atoi(w[2].c_str());
             bool cok = pt >= PASS_TYPE_POSITIONING && silf->aCollision() && face->glyphs().hasBoxes() && (silf->flags() & 0x20);
-            if ((atoi(w[3].c_str()) != 0) != cok) { puts("bad-op"); fflush(stdout); continue; }
+            if ((atoi(w[3].c_str()) != 0) != cok || strtoul(w[4].c_str(), 0, 10) != silf->numClasses() || strtoul(w[5].c_str(), 0, 10) != face->glyphs().numAttrs()
+                || strtoul(w[6].c_str(), 0, 10) != face->numFeatures() || strtoul(w[7].c_str(), 0, 10) != silf->numUser()) { puts("bad-op"); fflush(stdout); continue; }
             Pass *p = new Pass();
             p->init(silf);
             Exact e(b);
             Error err;
+            face->m_error = 0;
             bool ok = p->readPass(e.p, b.size(), base, *face, (passtype)pt, 0x00050000, err);
             if (g_faults) out = "fault";
             else if (!ok) {
-                int c = err.error();
-                if (layout_code(c)) { snprintf(buf, sizeof buf, "E%d", c); out = buf; }
-                else if (c == E_BADRANGE) out = "ranges";
-                else if (c == E_BADSTATE || c == E_BADRULEMAPPING) { snprintf(buf, sizeof buf, "states E%d", c); out = buf; }
-                else if (c == E_BADRULENUM) out = "rulemap";
-                else out = "later";
+                // the code the engine reports; 0 for the refusals that set none (`return false` in readRules)
+                if (face->m_error == 0xFFFFFFFFu) out = "E4294967295";
+                else { snprintf(buf, sizeof buf, "E%u", (unsigned)face->m_error); out = buf; }
             } else {
                 snprintf(buf, sizeof buf, "ok %u,%u,%u,%u,%u,%u,%u,%u,%u,%u,%u,%u,%u", (unsigned)p->m_iMaxLoop, (unsigned)p->m_numRules, (unsigned)p->m_numStates,
                          (unsigned)p->m_numTransition, (unsigned)p->m_numSuccess, (unsigned)p->m_numColumns, (unsigned)p->m_numGlyphs,
@@ -256,7 +255,7 @@ int main(int argc, char **argv) {
                          (unsigned)p->m_numCollRuns, (unsigned)p->m_kernColls);
                 out = buf;
                 if (p->m_numRules) {
-                    std::vector<unsigned> cols, st;
+                    std::vector<unsigned> cols, st, us;
                     for (unsigned g = 0; g < p->m_numGlyphs; ++g) cols.push_back(p->m_cols[g]);
                     for (int k = 0; k <= p->m_maxPreCtxt - p->m_minPreCtxt; ++k) st.push_back(p->m_startStates[k]);
                     for (unsigned k = 0; k < (unsigned)p->m_numTransition * p->m_numColumns; ++k) st.push_back(p->m_transitions[k]);
@@ -264,9 +263,14 @@ int main(int argc, char **argv) {
                         st.push_back((unsigned)(p->m_states[k].rules - p->m_ruleMap));
                         st.push_back((unsigned)(p->m_states[k].rules_end - p->m_states[k].rules));
                     }
-                    // the number of rule-map entries is not kept: it is the end of the last success state's range in the table
-                    out += " R:" + digestv(cols) + " S:" + digestv(st);
-                } else out += " R:- S:-";
+                    for (unsigned k = 0; k < p->m_numRules; ++k) {
+                        const Rule &r = p->m_rules[k];
+                        us.push_back(r.sort); us.push_back(r.preContext);
+                        us.push_back((unsigned)r.action->instructionCount()); us.push_back((unsigned)r.action->dataSize());
+                        us.push_back((unsigned)r.constraint->instructionCount()); us.push_back((unsigned)r.constraint->dataSize());
+                    }
+                    out += " R:" + digestv(cols) + " S:" + digestv(st) + " U:" + digestv(us);
+                } else out += " R:- S:- U:-";
             }
             delete p;
         }
